@@ -82,6 +82,11 @@ impl Rng {
         v
     }
 
+    pub fn bytes_pick(&mut self, sizes: &[usize]) -> Vec<u8> {
+        let n = sizes[self.usize(sizes.len())];
+        self.bytes(n)
+    }
+
     pub fn fill(&mut self, out: &mut [u8]) {
         let b = self.bytes(out.len());
         out.copy_from_slice(&b);
